@@ -10,7 +10,17 @@ THEOREMS = ['Tbox.C04.C04_every_subscriber_once', 'Tbox.C04.C04_chain_old_handle
             'Tbox.C04.C04_callbacks_legit', 'Tbox.C04.C04_no_callback_on_disabled_or_destroyed', 'Tbox.C04.C04_pass_drains',
             'Tbox.C04.C04_reinit_while_enabled_counterexample', 'Tbox.C04.C04_enable_fails_midway_counterexample',
             'Tbox.C04.C04_callback_on_destroyed_counterexample', 'Tbox.C04.C04_reachable_inv',
-            'Tbox.C04.exec_inv', 'Tbox.C04.baseDisp_exec', 'Tbox.C04.cbCount_passes']
+            'Tbox.C04.exec_inv', 'Tbox.C04.baseDisp_exec', 'Tbox.C04.cbCount_passes',
+            # round 4: pipe capacity / bursts / kernel answers to write() and read() / widths / invalid numbers / cross-loop scripts
+            'Tbox.C04.C04_burst_pipe', 'Tbox.C04.C04_burst_no_loss_partial', 'Tbox.C04.C04_burst_overflow_counterexample',
+            'Tbox.C04.C04_passC_drains_partial', 'Tbox.C04.C04_passC_nil', 'Tbox.C04.C04_read_error_counterexample',
+            'Tbox.C04.C04_read_count_width', 'Tbox.C04.C04_invalid_signal_total', 'Tbox.C04.C04_cross_loop_script_example',
+            'Tbox.C04.raises_pipe', 'Tbox.C04.passLoopC_drains',
+            # round 4: step-level model of the critical sections (every interleaving of threads, deliveries, user sigaction)
+            'Tbox.C04.Conc.C04_cs_reachable_inv', 'Tbox.C04.Conc.C04_cs_mutex', 'Tbox.C04.Conc.C04_cs_bookkeeping',
+            'Tbox.C04.Conc.C04_cs_mask_discipline', 'Tbox.C04.Conc.C04_cs_deliveries_find_ctx',
+            'Tbox.C04.Conc.C04_cs_handler_on_other_thread_counterexample', 'Tbox.C04.Conc.step_inv']
+LIBS = ['-ldl']
 SOURCES = vlib.EVENT_SOURCES + vlib.BASE_SOURCES
 FLAVOUR = 'asan'
 BATCH = 200
@@ -22,18 +32,36 @@ TRUSTED = ['model lean/TboxModel/C04/Model.lean hand-written from common_loop_si
            'the theorems hold for every such order',
            'Linux signal delivery: raise() runs the installed handler synchronously on the calling thread; sigaction/pipe semantics; sigaction fails exactly for SIGKILL/SIGSTOP',
            'a write fd of a loop\'s signal pipe is identified with the loop (fds of open pipes are distinct)',
+           'libc interposition in the harness (pipe2, close, sigprocmask, sigaction, write, read): the system calls of the critical sections are '
+           'recorded as M lines (pipe2 flags, block-all / restore-exactly-the-saved-mask bracket around every sigaction, close of both pipe ends); '
+           'the handler\'s write() per loop and the reads of onSignal take injected kernel answers (EAGAIN/EINTR/EIO/EPIPE, short reads)',
+           'kernel semantics assumed: a 4-byte write to a pipe is atomic (all or EAGAIN), pipe capacity = F_GETPIPE_SZ/4 numbers when written from empty, '
+           'sigprocmask acts on the calling thread only',
            'each case runs in a forked child of the harness: the bookkeeping under test is process-wide']
-ASSUMPTIONS = ['signals SIGKILL, SIGUSR1, SIGUSR2, SIGSTOP, SIGRTMIN+1, SIGRTMIN+2 (ids 0..5)',
-               'initialize() is given a std::set (the int / initializer_list overloads, which accumulate into the set, are not exercised)',
+ASSUMPTIONS = ['signals SIGKILL, SIGUSR1, SIGUSR2, SIGSTOP, SIGRTMIN+1, SIGRTMIN+2, SIGRTMAX (ids 0..6) and the invalid numbers 65, INT_MAX, 0, -3, 32 (ids 7..11)',
+               'all three initialize() overloads are exercised; the int / initializer_list overloads ADD to the set of the event (observed, outside the statement)',
                'the user does not call sigaction() on a signal while tbox\'s handler is installed for it, and never combines SIG_IGN with SA_SIGINFO',
-               'fewer than 16384 undelivered signals per loop (pipe capacity)', 'signals are raised one at a time, not concurrently with a subscription change',
-               'a callback changes only events of its own loop (its own thread) and does not delete the event it belongs to',
+               'deliveries beyond the pipe capacity (16384 pending numbers per loop, 1024 with a one-page pipe) are dropped by the handler: '
+               'C04_burst_no_loss_partial has the decidable hypothesis n <= capacity, C04_burst_overflow_counterexample shows the loss (both replayed)',
+               'signals are raised one at a time, not concurrently with a subscription change (Conc.lean: a delivery on another thread inside a critical section is possible)',
+               'a callback may change events of any loop (the other loops\' threads are parked: hand-shaken) but does not delete the event it belongs to',
+               'loops are not destroyed while events are subscribed and events do not outlive their loop (API contract of every event type; outside the statement)',
                'C04_every_subscriber_once (exactly once) assumes the callbacks of the subscribers of that signal do not change subscriptions; '
                'with such callbacks C04_no_callback_on_disabled_or_destroyed / C04_callbacks_legit say who may be called']
 RULE = ('op sequences (new/init/enable/disable/delete of signal events on 1-3 loops each owned by its own thread, callback scripts that '
         'enable/disable/delete sibling events, re-initialisation of enabled events, signal sets containing SIGKILL/SIGSTOP, user sigaction, real raise(), '
-        'single loop passes, both engines) from props/C04/plugin.py; non-trivial = the model run restores at least one saved disposition AND some '
+        'single loop passes, both engines; round 4: bursts of deliveries without a pass around the capacity of a one-page / default pipe, injected '
+        'errors of the handler\'s write() per loop, short / failing read() in onSignal, callbacks acting on events of other loops, signal numbers '
+        '0 / negative / 32 / 64 / 65 / INT_MAX, the accumulating initialize() overloads) from props/C04/plugin.py; non-trivial = the model run restores at least one saved disposition AND some '
         'pass delivers at least one callback (driver tags restore + pass-cb1/pass-cbN); distinct = distinct op text')
+
+INVALID = [0, 3, 7, 8, 9, 10, 11]
+RANK = {0: 2, 1: 3, 2: 4, 3: 5, 4: 7, 5: 8, 6: 9, 7: 10, 8: 11, 9: 1, 10: 0, 11: 6}   # order of the signal numbers
+
+
+def sigs_text(ids, sep=','):
+    return sep.join(map(str, sorted(set(ids), key=lambda g: RANK[g]))) if ids else '-'
+
 
 VALID = [1, 2, 4, 5]      # SIGUSR1, SIGUSR2, SIGRTMIN+1, SIGRTMIN+2   (0 = SIGKILL, 3 = SIGSTOP: sigaction fails)
 
@@ -42,8 +70,10 @@ def sigset(rng, pool, bad=0.0):
     k = rng.choice([1, 1, 1, 2, 2, 3])
     s = set(rng.sample(pool, min(k, len(pool))))
     if rng.random() < bad:
-        s.add(rng.choice([0, 3]))
-    return ','.join(map(str, sorted(s)))
+        s.add(rng.choice(INVALID))
+    if rng.random() < 0.05:
+        s.add(6)
+    return sigs_text(s)
 
 
 def rand_sa(rng, g):
@@ -164,7 +194,117 @@ def gen_long_history(rng):
     return ops
 
 
+def gen_burst(rng, tier):
+    """bursts without a loop pass around the capacity of a one-page pipe (1024 numbers) and around the read chunk (10)"""
+    ops = ['eng ' + rng.choice('es'), 'cap s', rng.choice(['sa 1 h0 0 0', 'sa 1 a1 1 2', 'sa 1 i 0 0'])]
+    nl = rng.choice([1, 2, 3])
+    n = 0
+    for l in range(nl):
+        for _ in range(rng.choice([1, 1, 2])):
+            ops += ['new %d -' % l, 'init %d %s %s' % (n, rng.choice(['1', '1', '1,2']), rng.choice('oppp')), 'en %d' % n]
+            n += 1
+    for _ in range(rng.choice([1, 2, 3])):
+        k = rng.choice([1, 9, 10, 11, 19, 20, 21, 23, 100, 1023, 1024, 1025, 1030])
+        if rng.random() < 0.3:
+            ops += ['burst 1 %d' % rng.choice([1000, 1020]), 'burst 1 %d' % rng.choice([3, 4, 5, 30])]
+        else:
+            ops.append('burst 1 %d' % k)
+        if rng.random() < 0.3:
+            ops.append('raise 2')
+        order = list(range(nl)); rng.shuffle(order)
+        for l in order:
+            if rng.random() < 0.85:
+                ops.append(rng.choice(['pass %d' % l, 'pass %d' % l, 'passc %d %s' % (l, ','.join(rng.choice(['1', '3', '10', '7', 'x', 'e', '2']) for _ in range(rng.choice([1, 2, 4]))))]))
+                # the kernel model counts the capacity from an EMPTY pipe (it does not track the consumed part of the head page):
+                # after a read error the loop is drained before the next burst
+                if 'x' in ops[-1] or ',e' in ops[-1] or ' e' in ops[-1][6:]:
+                    ops.append('pass %d' % l)
+        if rng.random() < 0.4:
+            ops.append('en %d' % rng.randrange(n))
+    for e in range(n):
+        ops.append('dis %d' % e)
+    ops += ['raise 1'] + ['pass %d' % l for l in range(nl)]
+    return ops
+
+
+def gen_faults(rng):
+    """kernel answers: the handler's write fails for some loops, the loop's read is short / fails; cross-loop scripts"""
+    ops = ['eng ' + rng.choice('es')]
+    if rng.random() < 0.3: ops.append('cap s')
+    ops.append(rng.choice(['sa 1 h0 0 0', 'sa 1 a2 3 5', 'sa 1 i 0 0', 'sa 1 d 0 0']))
+    nl = 3
+    n = rng.choice([3, 4, 6])
+    for e in range(n):
+        sc = '-'
+        if rng.random() < 0.4:
+            j = rng.randrange(n)
+            sc = rng.choice(['d%d', 'e%d', 'x%d', 'd%d,e%d' % (j, j), 'i%d:2:p,e%d' % (j, j)])
+            if '%d' in sc: sc = sc % j
+            if sc == 'x%d' % e: sc = 'd%d' % e
+        ops += ['new %d %s' % (e % nl, sc), 'init %d %s %s' % (e, rng.choice(['1', '1', '1,2', '2']), rng.choice('oppp')), 'en %d' % e]
+    for _ in range(rng.choice([3, 6, 10])):
+        r = rng.random()
+        if r < 0.45:
+            wf = sorted(rng.sample(range(3), rng.choice([0, 1, 1, 2, 3])))
+            ops.append('raisew %d %s' % (rng.choice([1, 1, 2]), ','.join(map(str, wf)) if wf else '-'))
+        elif r < 0.6:
+            ops.append('raise %d' % rng.choice([1, 2]))
+        elif r < 0.7:
+            ops.append('burst %d %d' % (rng.choice([1, 2]), rng.choice([2, 11, 12])))
+        for l in range(nl):
+            if rng.random() < 0.6:
+                ops.append(rng.choice(['pass %d' % l, 'passc %d %s' % (l, ','.join(rng.choice(['1', '2', '10', 'x', 'e', '5']) for _ in range(rng.choice([1, 2, 3]))))]))
+        if rng.random() < 0.3:
+            ops.append(rng.choice(['en %d', 'dis %d']) % rng.randrange(n))
+    for l in range(nl): ops.append('pass %d' % l)
+    for e in range(n): ops.append('dis %d' % e)
+    ops += ['raise 1', 'raise 2'] + ['pass %d' % l for l in range(nl)]
+    return ops
+
+
+def gen_numbers(rng):
+    """signal numbers at and beyond the valid range, the three initialize() overloads (two of them accumulate)"""
+    ops = ['eng ' + rng.choice('es'), 'sa 6 %s 0 0' % rng.choice(['h1', 'a0', 'i', 'd']), 'sa 1 h2 1 0',
+           'sa %d h0 0 0' % rng.choice([7, 8, 9, 10, 11])]
+    n = rng.choice([2, 3])
+    for e in range(n):
+        ops.append('new %d -' % rng.randrange(2))
+        ids = rng.sample([1, 2, 6], rng.choice([1, 2])) + (rng.sample(INVALID, 1) if rng.random() < 0.5 else [])
+        ops.append('init %d %s %s' % (e, sigs_text(ids), rng.choice('op')))
+        ops.append('en %d' % e)
+    for _ in range(rng.choice([4, 8])):
+        e = rng.randrange(n)
+        r = rng.random()
+        if r < 0.25: ops.append('init1 %d %d %s' % (e, rng.choice([1, 2, 6, 6] + INVALID), rng.choice('op')))
+        elif r < 0.45: ops.append('initl %d %s %s' % (e, sigs_text(rng.sample([1, 2, 4, 6, 7, 10], rng.choice([1, 2, 3]))), rng.choice('op')))
+        elif r < 0.6: ops.append('init %d %s p' % (e, sigs_text(rng.sample([1, 2, 6], 2))))
+        elif r < 0.8: ops.append('en %d' % e)
+        else: ops.append('dis %d' % e)
+        ops += ['raise %d' % rng.choice([1, 2, 6, 6]), 'pass 0', 'pass 1']
+    for e in range(n): ops.append('del %d' % e)
+    ops += ['raise 6', 'raise 1']
+    return ops
+
+
 DIRECTED = [
+    # round 4: one delivery more than a one-page pipe holds, loop not running: the 1025th is dropped (C04_burst_overflow_counterexample);
+    # the old handler is still invoked 1025 times; the other loop joins later and gets its own full pipe
+    ['eng e', 'cap s', 'sa 1 a1 0 0', 'new 0 -', 'new 1 -', 'init 0 1 p', 'init 1 1 p', 'en 0', 'burst 1 1025', 'en 1', 'burst 1 3', 'pass 0', 'pass 1',
+     'raise 1', 'pass 0', 'pass 1', 'dis 0', 'dis 1'],
+    # the handler's write fails for loop 1 only (EAGAIN/EINTR/EIO/EPIPE injected): loops 0 and 2 deliver, the old handler runs, nothing is retried
+    ['eng s', 'sa 2 h1 0 0', 'new 0 -', 'new 1 -', 'new 2 -', 'init 0 2 p', 'init 1 2 p', 'init 2 2 o', 'en 0', 'en 1', 'en 2', 'raisew 2 1', 'pass 0', 'pass 1',
+     'pass 2', 'raisew 2 0,1,2', 'pass 0', 'pass 1', 'pass 2', 'raisew 2 -', 'pass 1', 'dis 0', 'dis 1'],
+    # read() answers: EINTR leaves the numbers pending for the next pass; short reads of 1 and 3 with a callback that closes the pipe
+    ['eng e', 'new 0 -', 'new 0 d0,d1', 'init 0 1 p', 'init 1 2 p', 'en 0', 'en 1', 'burst 1 12', 'passc 0 x', 'passc 0 1,e', 'passc 0 3,10,x', 'pass 0',
+     'raise 1', 'raise 1', 'raise 2', 'raise 1', 'passc 0 2,1', 'en 0', 'raise 1', 'pass 0'],
+    ['eng e', 'new 0 -', 'new 0 d0,d1', 'init 0 1 p', 'init 1 2 p', 'en 0', 'en 1', 'raise 1', 'raise 1', 'raise 2', 'raise 1', 'passc 0 3', 'en 0', 'raise 1', 'pass 0'],
+    # a callback on loop 0 disables / re-initialises / deletes events of loops 1 and 2 (their pending deliveries go with their pipes)
+    ['eng e', 'sa 1 h0 0 0', 'new 0 d1,x2', 'new 1 -', 'new 2 -', 'new 1 i0:2:p,e0', 'init 0 1 p', 'init 1 1 p', 'init 2 1 p', 'init 3 2 p', 'en 0', 'en 1', 'en 2', 'en 3',
+     'raise 1', 'raise 2', 'pass 0', 'pass 1', 'pass 2', 'raise 2', 'raise 1', 'pass 1', 'pass 0', 'dis 0', 'dis 3'],
+    # invalid signal numbers: 65, INT_MAX, 0, negative, 32; SIGRTMAX is valid; the overloads that accumulate
+    ['eng e', 'sa 6 a2 1 0', 'sa 7 h0 0 0', 'sa 9 i 0 0', 'new 0 -', 'init 0 10,1,7 p', 'en 0', 'raise 1', 'init 0 6 p', 'en 0', 'raise 6', 'pass 0', 'init1 0 1 p', 'en 0',
+     'raise 1', 'raise 6', 'pass 0', 'initl 0 9,2 o', 'en 0', 'init 0 11 p', 'en 0', 'init 0 8 p', 'en 0', 'init 0 9 p', 'en 0', 'init1 0 2 p', 'en 0', 'raise 2',
+     'pass 0', 'del 0', 'raise 6', 'raise 7', 'raise 10'],
     # malformed stream: both sides must answer bad-op (or refuse) identically
     ['eng x', 'new 3 -', 'new 0 -', 'init 0 4 p', 'init 0 2,1 p', 'init 0 1,1 p', 'init 0 0, p', 'init 0 1 q', 'en 1', 'sa 1 h3 0 0', 'sa 4 d 0 0',
      'sa 1 h0 4 0', 'sa 1 h0 0 16', 'raise 4', 'pass 3', 'frob', 'init 0 1 p', 'en 0', 'init 0 2 p', 'del 0', 'en 0', 'dis 0', 'init 0 1 p'],
@@ -204,6 +344,8 @@ def gen(rng, tier):
     for ops in gen_self_scripts():
         yield ops
     if tier == 'thorough':
+        # the default 64 KiB pipe: 16384 fit, the 16385th is dropped; one-shot sibling fires once
+        yield ['eng e', 'sa 1 h0 0 0', 'new 0 -', 'new 0 -', 'init 0 1 p', 'init 1 1 o', 'en 0', 'en 1', 'burst 1 16385', 'pass 0', 'raise 1', 'pass 0', 'dis 0']
         # exhaustive: every op sequence of length <= 4 over a small alphabet (2 loops, one shared signal, one-shot + persistent,
         # a callback that deletes a sibling)
         alpha = ['en 0', 'dis 0', 'en 1', 'dis 1', 'raise 1', 'pass 0', 'pass 1', 'del 1', 'en 2']
@@ -217,6 +359,12 @@ def gen(rng, tier):
         yield gen_dispatch(rng)
     for _ in range(n // 10):
         yield gen_long_history(rng)
+    for _ in range(n // 6):
+        yield gen_burst(rng, tier)
+    for _ in range(n // 3):
+        yield gen_faults(rng)
+    for _ in range(n // 8):
+        yield gen_numbers(rng)
 
 
 def fingerprint(ops, d):
@@ -224,7 +372,10 @@ def fingerprint(ops, d):
     import hashlib
     inits = [o.split() for o in ops if o.startswith('init ')]
     scripted = any(o.startswith('new ') and not o.endswith(' -') for o in ops)
-    bad_sig = any(set(w[2].split(',')) & {'0', '3'} for w in inits if len(w) == 4)
+    bad_sig = any(set(w[2].split(',')) & {'0', '3', '7', '8', '9', '10', '11'} for w in inits if len(w) == 4)
+    if any(o.startswith('burst ') for o in ops) and ('burst' in (d[1] if d else '') or 'pass' in (d[1] if d else '')): return 'burst-or-capacity'
+    if any(o.startswith('raisew ') for o in ops): return 'write-failure'
+    if any(o.startswith('passc ') for o in ops): return 'read-answers'
     msg = (d[1] if d else '')
     news = [o.split() for o in ops if o.startswith('new ')]
     import re as _re
@@ -250,10 +401,15 @@ LEVEL_TEXT = ('Lean 4 theorems over a model of the process-wide signal bookkeepi
               'SignalHandlerFunc/onSignal incl. read chunks + SignalEventImpl with callback scripts): an inductive invariant over every op list '
               '(any signals, events, loops, scripts, walking orders) yields ctx<->per-loop-map<->event consistency, handler installed exactly while '
               'someone is subscribed, saved disposition restored, old handler chained once, no callback on a disabled or destroyed event, every '
-              'subscriber called exactly once on its own loop, one-shot at most once, termination of the read loop; tied to the real code on every '
-              'run by a trace acceptor (real sigaction/raise, loops on their own threads, both engines, ASan+UBSan build of the working tree)')
+              'subscriber called exactly once on its own loop (for every kernel answer to the handler\'s pipe writes: a failed write loses that loop\'s '
+              'delivery only), one-shot at most once, termination of the read loop (for every sequence of read() answers without an error); bursts: '
+              'min(n, capacity) numbers pending per subscribed loop (no loss up to the capacity, counterexample beyond); a step-level model of the two '
+              'critical sections (mutex + per-thread signal mask) with the bookkeeping invariant for every interleaving of threads, deliveries and user '
+              'sigaction calls; tied to the real code on every run by a trace acceptor (real sigaction/raise, loops on their own threads, both engines, '
+              'interposed pipe2/close/sigprocmask/sigaction/write/read, ASan+UBSan build of the working tree)')
 LEVEL_NOTE = ('trusted: Lean kernel, hand-written model + trace-acceptor tie (coverage bounded by the generator, measured), kernel signal semantics; '
-              'not covered: concurrent delivery vs subscription change, async-signal-safety of the handler\'s std::map access, pipe overflow, '
-              'callbacks acting on another loop\'s events')
+              'not covered by the tie: a delivery on another thread while a subscription change is in progress (modelled at step level only; the C++ '
+              'data race on std::map/std::set in that window is outside the statement\'s quantifier), the consumed part of a pipe\'s head page in the '
+              'capacity (bursts near the capacity are generated on drained pipes), destruction of a loop with subscribed events, fork()')
 TECHNIQUE = 'Lean 4 invariant proof over all op lists of a signal-bookkeeping model + model/implementation correspondence check'
 DESIGN_REF = 'DESIGN.md §6 C04'
